@@ -268,7 +268,7 @@ func (c *Ctx) srcFuncs(rel string) []*ssa.Function {
 	seen := map[*ssa.Function]bool{}
 	var add func(f *ssa.Function)
 	add = func(f *ssa.Function) {
-		if f == nil || seen[f] || len(f.Blocks) == 0 {
+		if f == nil || seen[f] || len(f.Blocks) == 0 || (f.Synthetic != "" && f.Parent() == nil) {
 			return
 		}
 		seen[f] = true
